@@ -57,6 +57,7 @@ func main() {
 	repo := fs.String("repo", "/repo", "repository root")
 	verif := fs.String("verif", "/verif", "verification root")
 	tier := fs.String("tier", "quick", "quick|thorough")
+	outDir := fs.String("out", "", "directory for evidence/ and replays/ (default: the verification root)")
 	verbose := fs.Bool("v", false, "verbose")
 	keep := fs.Bool("keep", false, "keep SMT scripts")
 	replayPath := fs.String("replay", "", "replay file")
@@ -68,7 +69,6 @@ func main() {
 	}
 	fs.Parse(args)
 	pos = append(pos, fs.Args()...)
-	_ = replayPath
 
 	t0 := time.Now()
 	prog, err := loadProgram(*repo)
@@ -76,7 +76,7 @@ func main() {
 		fmt.Fprintln(os.Stderr, "load:", err)
 		os.Exit(2)
 	}
-	en := &Engine{prog: prog, specDir: filepath.Join(*verif, "spec")}
+	en := &Engine{repo: *repo, prog: prog, specDir: filepath.Join(*verif, "spec")}
 	if err := en.loadPreludes(); err != nil {
 		fmt.Fprintln(os.Stderr, "preludes:", err)
 		os.Exit(2)
@@ -157,11 +157,17 @@ func main() {
 			fmt.Println("scripts in", workdir)
 		}
 		os.Exit(code)
+	case "replay":
+		os.Exit(en.replayFile(*replayPath, *verif))
 	case "check":
 		if len(pos) != 1 {
 			fmt.Fprintln(os.Stderr, "check needs one property id")
 			os.Exit(2)
 		}
+		if *outDir == "" {
+			*outDir = *verif
+		}
+		en.outDir = *outDir
 		os.Exit(en.checkProperty(pos[0], *tier, *verif, workdir, t0))
 	default:
 		fmt.Fprintln(os.Stderr, "unknown command", cmd)
